@@ -250,5 +250,45 @@ def resolve : Sym → List Char
   | .item i => 'i' :: 't' :: 'e' :: 'm' :: (toString i).toList
   | .regular s => s
 
+/-! ### string literal delimiters (`xray.pest`: STRING, RAW_STRING)
+`PUSH("#"*) ~ quote ~ inner ~ quote ~ POP` with `inner = (!(quote ~ PEEK) ~ ("\\" quote | "\\\\" | ANY))*`
+(raw strings: `inner = (!(quote ~ PEEK) ~ ANY)*`), read as a scanner over the literal's characters. -/
+
+/-- the input starts with the closing delimiter: the quote followed by the `n` fence characters -/
+def closes (q : Char) (n : Nat) (l : List Char) : Bool := (q :: List.replicate n '#').isPrefixOf l
+
+/-- the inner text up to the first closing delimiter, and what follows the delimiter (`none`: no parse) -/
+def scanInner (q : Char) (n : Nat) (raw : Bool) : Nat → List Char → Option (List Char × List Char)
+  | 0, _ => none
+  | fuel + 1, l =>
+    if closes q n l then some ([], l.drop (n + 1))
+    else match l with
+      | [] => none
+      | c :: rest =>
+        if !raw && c = '\\' then
+          match rest with
+          | d :: rest' =>
+            if d = q || d = '\\' then (scanInner q n raw fuel rest').map (fun (i, r) => (c :: d :: i, r))
+            else (scanInner q n raw fuel rest).map (fun (i, r) => (c :: i, r))
+          | [] => none
+        else (scanInner q n raw fuel rest).map (fun (i, r) => (c :: i, r))
+
+def isRawPrefix : List Char → Bool
+  | 'r' :: _ => true
+  | _ => false
+
+/-- a STRING or RAW_STRING literal at the head of the input: its value (or the escape error) and the rest -/
+def parseLiteral (l : List Char) : Option (Outcome (List Char) × List Char) :=
+  let raw := isRawPrefix l
+  let l1 := if raw then l.drop 1 else l
+  let n := (l1.takeWhile (· = '#')).length
+  match l1.dropWhile (· = '#') with
+  | q :: body =>
+    if q = '"' || q = '\'' then
+      (scanInner q n raw (body.length + 1) body).map
+        (fun (inner, rest) => (if raw then .ok inner else applyEscapes inner, rest))
+    else none
+  | [] => none
+
 end Lex
 end XrayModel
